@@ -45,6 +45,31 @@ def run(R, job):
                     fh.write((f"/* {k}:{f} */" * (k + 1)).encode("utf-8"))
             srcs.append(d)
 
+        # an importable dotted package whose files differ from the same-named files of its parent package
+        import sys as _sys
+        pk = os.path.join(tmp, "pkgroot")
+        for rel, body in (("hvpk/__init__.py", ""), ("hvpk/sub/__init__.py", ""), ("hvpk/sub/lib/p.js", "/* inner */"), ("hvpk/lib/p.js", "/* OUTER */")):
+            pth = os.path.join(pk, rel)
+            os.makedirs(os.path.dirname(pth), exist_ok=True)
+            with open(pth, "w") as fh: fh.write(body)
+        _sys.path.insert(0, pk)
+        try:
+            dpk = core.HTMLDependency("pk", "1.0", source={"package": "hvpk.sub", "subdir": "lib"}, script={"src": "p.js"})
+            outp = os.path.join(tmp, "pkout")
+            os.makedirs(outp)
+            checked += 1
+            f = core.Tag("div", dpk).save_html(os.path.join(outp, "i.html"))
+            tgt = os.path.join(outp, "lib", "pk-1.0", "p.js")
+            if not os.path.isfile(tgt) or open(tgt).read() != "/* inner */":
+                fails.append({"input": "dependency with source={'package': 'hvpk.sub', 'subdir': 'lib'} (a dotted package)", "observed": open(tgt).read() if os.path.isfile(tgt) else "no file copied",
+                              "expected": "a byte-identical copy of hvpk/sub/lib/p.js"})
+        except Exception as ex:
+            fails.append({"input": "dependency with a dotted package source", "observed": "EXC " + type(ex).__name__ + ": " + str(ex)[:200], "expected": "files copied"})
+        finally:
+            _sys.path.remove(pk)
+            for k in [k for k in _sys.modules if k == "hvpk" or k.startswith("hvpk.")]:
+                del _sys.modules[k]
+
         def mkdep(i, kind=None):
             kind = kind or r.choice(["dir", "dir", "dir", "url", "url/", "none", "pkg"])
             name = r.choice(["dep", "my-lib", "x_y", "d.e"]) + str(i)
@@ -170,6 +195,15 @@ def run(R, job):
                 except Exception:
                     if tree_bytes(dest) != before:
                         fails.append({"input": "copy_to with a missing listed file and an existing target directory", "observed": "target directory was touched before raising", "expected": "untouched"})
+            d3 = core.HTMLDependency("nofiles", "1.0", source={"subdir": srcs[0]}, head="<title>t</title>")
+            dest3 = tempfile.mkdtemp(prefix="dest", dir=tmp)
+            t3 = os.path.join(dest3, "nofiles-1.0")
+            os.makedirs(t3)
+            with open(os.path.join(t3, "STALE.txt"), "w") as fh: fh.write("old")
+            checked += 1
+            d3.copy_to(dest3)
+            if os.path.exists(os.path.join(t3, "STALE.txt")):
+                fails.append({"input": "copy_to of a local dependency that lists no files, target directory has stale contents", "observed": "stale file still there", "expected": "stale contents of the target directory are gone"})
             for kind2 in ("url", "none"):
                 d2, *_ = mkdep(98, kind2)
                 dest = os.path.join(tempfile.mkdtemp(prefix="dest", dir=tmp), "lib")
